@@ -24,7 +24,7 @@ import itertools
 import logging
 import math
 import struct
-from typing import Iterable, Optional, Sequence, Set
+from typing import Iterable, Optional, Sequence
 from jellyfysh.base.logging import log_init_arguments
 from jellyfysh.base.exceptions import ConfigurationError
 from jellyfysh.setting import hypercuboid_setting as setting
@@ -147,7 +147,10 @@ class CuboidCells(Cells):
 
         self._nearby_cells = {}
         for cell in self._cells:
-            self._nearby_cells[cell] = set(nearby_cell for nearby_cell in self._yield_nearby_cells(cell))
+            # The nearby cells are stored without repetitions in the order of their generation. (The iteration order of
+            # a set of cells depends on their memory addresses, which would make the order in which candidate events
+            # are computed, and thus a run with a fixed seed, irreproducible, e.g., after resuming from a dump.)
+            self._nearby_cells[cell] = tuple(dict.fromkeys(self._yield_nearby_cells(cell)))
 
     def _yield_nearby_cells(self, cell: Cell) -> Iterable[Cell]:
         """
@@ -235,7 +238,7 @@ class CuboidCells(Cells):
         """
         return min(int(position_entry / self._cell_side_lengths[index]), self._cells_per_side[index] - 1)
 
-    def nearby_cells(self, cell: Cell) -> Set[Cell]:
+    def nearby_cells(self, cell: Cell) -> Sequence[Cell]:
         """
         Return the set of nearby cells in the cell system of the given cell.
 
@@ -249,8 +252,8 @@ class CuboidCells(Cells):
 
         Returns
         -------
-        Set[Cell]
-            The set of nearby cells.
+        Sequence[Cell]
+            The nearby cells (without repetitions, in a reproducible order).
         """
         return self._nearby_cells[cell]
 
